@@ -1268,7 +1268,10 @@ func judge(c *core.Case, sc Scenario, o sess.Opts, st *runState, written []byte,
 							// which code chose the address: the multiplexer's fallback
 							// (stanza.NewIQ) or the session's default reply
 							who := "session"
-							if sc.Mode == "mux-unreg" && cl.HasPayload {
+							if cl.HasPayload && (sc.Mode == "mux-unreg" || sc.Mode == "mux-reg") && st.rets[i] == "" {
+								// behind the multiplexer and the program never ran (nothing
+								// registered, or a qualified type kept the multiplexer from
+								// finding it): the fallback answered
 								who = "mux-fallback"
 							}
 							key = "reply:to:" + who + ":qualified-from"
@@ -1419,7 +1422,33 @@ func witness(sc Scenario) func(*core.Case) {
 // the unchanged tree.
 func witnesses() map[string]func(*core.Case) {
 	const get = `<iq type='get' id='q1' from='juliet@example.org/balcony'><q xmlns='urn:c07:a'/></iq>`
+	const wsGet = `<iq xmlns='jabber:client' type='get' id='q1' from='juliet@example.org/balcony'><q xmlns='urn:c07:a'/></iq>`
+	// the handler writes only the start tag of a <message/> and does not answer
+	// the request: the default reply is written inside that element
+	abandon := []Program{{Writes: []Write{{Kind: "message", Via: "tokens", Abandon: 1}}, Ret: "nil"}}
+	// own-namespace-qualified attributes named like stanza attributes
+	const qResult = `<iq xmlns:c='jabber:client' type='result' c:type='get' id='q1' from='juliet@example.org/balcony'><q xmlns='urn:c07:a'/></iq>`
+	const qError = `<iq xmlns:c='jabber:client' type='error' c:type='get' id='q1' from='juliet@example.org/balcony'><q xmlns='urn:c07:a'/></iq>`
+	const qID = `<iq xmlns:c='jabber:client' type='get' id='q1' c:id='x1' from='juliet@example.org/balcony'><q xmlns='urn:c07:a'/></iq>`
+	const qFrom = `<iq xmlns:c='jabber:client' type='get' id='q1' c:from='mallory@example.org/x' from='juliet@example.org/balcony'><q xmlns='urn:c07:a'/></iq>`
+	// (stanza.NewIQ lets the last one win, the session's default reply the first)
+	const qFromLast = `<iq xmlns:c='jabber:client' type='get' id='q1' from='juliet@example.org/balcony' c:from='mallory@example.org/x'><q xmlns='urn:c07:a'/></iq>`
+	nop := []Program{{Ret: "nil"}}
 	return map[string]func(*core.Case){
+		"reply:missing:bare:abandoned-element":    witness(Scenario{Mode: "bare", Input: []string{get}, Programs: abandon}),
+		"reply:missing:mux:abandoned-element":     witness(Scenario{Mode: "mux-reg", Input: []string{get}, Programs: abandon}),
+		"reply:missing:ws-bare:abandoned-element": witness(Scenario{WS: true, Mode: "bare", Input: []string{wsGet, wsClose}, Programs: append(append([]Program{}, abandon...), nop...)}),
+		"reply:missing:ws-mux:abandoned-element":  witness(Scenario{WS: true, Mode: "mux-reg", Input: []string{wsGet, wsClose}, Programs: append(append([]Program{}, abandon...), nop...)}),
+		// stanza.NewIQ takes c:type / c:id / c:from (c bound to the stanza's own
+		// namespace) for the stanza's type / id / from: the multiplexer's fallback
+		// answers a result, answers with the wrong id, answers the wrong entity
+		"autoreply:iq-result:qualified-attr":    witness(Scenario{Mode: "mux-unreg", Input: []string{qResult}, Programs: nop}),
+		"autoreply:iq-error:qualified-attr":     witness(Scenario{Mode: "mux-unreg", Input: []string{qError}, Programs: nop}),
+		"autoreply:unattributed:qualified-attr": witness(Scenario{Mode: "mux-unreg", Input: []string{qID}, Programs: nop}),
+		"reply:to:mux-fallback:qualified-from":  witness(Scenario{Mode: "mux-unreg", Input: []string{qFromLast}, Programs: nop}),
+		// the session's default reply is addressed to the first attribute whose
+		// local name is from, whatever its namespace
+		"reply:to:session:qualified-from": witness(Scenario{Mode: "bare", Input: []string{qFrom}, Programs: nop}),
 		// Serve takes io.EOF returned by a handler for the end of the input
 		// stream: no reply, no stream error, session closed, Serve returns nil.
 		"reply:missing:bare:handler-eof": witness(Scenario{Mode: "bare", Input: []string{get},
